@@ -618,6 +618,17 @@ def sf_isinstance(st, n):
 def sf_getattr(st, n):
     """getattr(obj, 'name', default) on an object whose class declares the field: the attribute may be
     unset on the instance (ghost flag <name>__set when declared), in which case the default is returned."""
+    if len(n.args) == 3 and not isinstance(n.args[1], ast.Constant):
+        # getattr(obj, <computed name>, default): an attribute of unknown name -- some object of the
+        # default's class (or the default itself)
+        E.ev(st, n.args[0])
+        E.ev(st, n.args[1])
+        default = E.ev(st, n.args[2])
+        if default.t.kind != 'ref':
+            raise Undecided('getattr with computed name and non-object default')
+        r = st.fresh_val(default.t, 'getattr')
+        st.assume(r.z != 0)     # an attribute holding None is not modelled (Queue._use_pool never stores None)
+        return r
     if len(n.args) != 3 or not isinstance(n.args[1], ast.Constant):
         raise Undecided('getattr() at line %s needs a contract-level model' % n.lineno)
     obj = E.ev(st, n.args[0])
@@ -1072,7 +1083,7 @@ _BUILTINS = {
     'int': bi_int, 'sorted': bi_sorted, 'range': bi_range, 'enumerate': bi_enumerate,
     'zip': bi_zip, 'reversed': bi_reversed, 'bytearray': bi_bytearray,
     'memoryview': bi_memoryview, 'bytes': bi_bytes,
-    'map': bi_unsupported('map'), 'repeat': lambda st, args, kw: Val(T.Ty('repeat'), args[0]),
+    'map': lambda st, args, kw: bi_map(st, args, kw), 'repeat': lambda st, args, kw: Val(T.Ty('repeat'), args[0]),
 }
 
 
@@ -1426,3 +1437,12 @@ def _py_join(st, args):
 
 
 SPECFUNS['py_join'] = _py_join
+
+
+def bi_map(st, args, kw):
+    """map(f, *iterables) for f = <spawner>.spawn: the lazily produced sequence of greenlets, one per
+    position (as many as the shortest iterable; repeat(x) is infinite).  Modelled eagerly as a list."""
+    h = SPECFUNS.get('py_map')
+    if h is None:
+        raise Undecided('map() model missing')
+    return h(st, args)
